@@ -83,6 +83,11 @@ func (s *gatedStore) Delete(key string) error {
 	s.wait()
 	return s.under.Delete(sk)
 }
+// reads of the id namespace are folded onto the slot space too (ungated: not a step of the model)
+func (s *gatedStore) Get(key string) (any, error) {
+	sk, _ := s.slotOf(key)
+	return s.under.Get(sk)
+}
 func (s *gatedStore) Exists(key string) (bool, error) {
 	sk, _ := s.slotOf(key)
 	s.wait()
@@ -341,6 +346,15 @@ func runCase(raw json.RawMessage) interface{} {
 	}
 	if c.Mode == "ttl" {
 		return runTTL(c)
+	}
+	if c.Mode == "birthday" {
+		return runBirthday(c)
+	}
+	if c.Mode == "nodeseq" {
+		return runNodeSeq(c)
+	}
+	if c.Mode == "nodefault" {
+		return runNodeFault(c)
 	}
 	return runSched(c)
 }
